@@ -136,7 +136,119 @@ pub fn check(scn: &Scenario) -> Result<CaseInfo, String> {
     }
 }
 
-pub const RULE: &str = "scenarios = generated unordered clause lists (1-6 patterns per method, arbitrary 8-bit accept masks over args 0..8, some_call/each_call/stub forms, patterns of one method split over several clauses) x histories of up to 24 calls routed through the original or clones, strict and partial; wide-clause-lists = the same with up to 16 separate clauses over 3 methods (every mock is built from a REAL tuple of the list's arity); non-trivial = some call is accepted by >= 2 patterns of its method and an earlier call to the same method already matched; distinct = distinct scenario (hash of the whole case)";
+// ------------------------------------------------------------------ methods without (sized) inputs
+
+#[derive(Clone, Copy, Debug, PartialEq, Eq, Hash, serde::Serialize, serde::Deserialize)]
+pub struct UnitTag;
+
+#[unimock::unimock(api=ZMock, unmock_with=[real_z0, real_zu])]
+pub trait Z {
+    fn z0(&self) -> u32;
+    fn zu(&self, t: UnitTag) -> u32;
+}
+pub fn real_z0(_: &impl std::any::Any) -> u32 {
+    7777
+}
+pub fn real_zu(_: &impl std::any::Any, _: UnitTag) -> u32 {
+    7778
+}
+
+/// Patterns over a method whose inputs are zero-sized: a matcher can only accept or reject every
+/// call (a guard over captured state, `m.func(|_, _| false)`), but first-declared-wins still applies.
+#[derive(Clone, Debug, PartialEq, Eq, Hash, serde::Serialize, serde::Deserialize)]
+pub struct ZeroCase {
+    pub partial: bool,
+    /// the method takes a unit-struct argument instead of no argument
+    pub unit_arg: bool,
+    /// per pattern: does its matcher accept
+    pub accepts: Vec<bool>,
+    /// patterns in one stub (true) or one each_call clause per pattern
+    pub one_stub: bool,
+    pub calls: u8,
+}
+
+pub fn check_zero(c: &ZeroCase) -> Result<CaseInfo, String> {
+    use std::sync::Arc;
+    use unimock::{MockFn, Unimock};
+    use vcore::panics::catch;
+    let first = c.accepts.iter().position(|a| *a);
+    // model: every call is answered by the first accepting pattern
+    let mut counts = vec![0usize; c.accepts.len()];
+    if let Some(i) = first {
+        counts[i] = c.calls as usize;
+    }
+    let mut dc = unimock::verif::DynClause::new();
+    macro_rules! setup {
+        ($f:expr, $ans:expr) => {{
+            if c.one_stub {
+                let accepts = c.accepts.clone();
+                let counts = counts.clone();
+                dc.push($f.stub(move |each| {
+                    for (i, a) in accepts.iter().enumerate() {
+                        let a = *a;
+                        each.call(&move |m| m.func(move |_, _| a)).answers_arc($ans(i)).n_times(counts[i]);
+                    }
+                }));
+            } else {
+                for (i, a) in c.accepts.iter().enumerate() {
+                    let a = *a;
+                    dc.push($f.each_call(&move |m| m.func(move |_, _| a)).answers_arc($ans(i)).n_times(counts[i]));
+                }
+            }
+        }};
+    }
+    if c.unit_arg {
+        setup!(ZMock::zu, |i: usize| -> Arc<dyn Fn(&Unimock, UnitTag) -> u32 + Send + Sync> { Arc::new(move |_, _| 100 + i as u32) });
+    } else {
+        setup!(ZMock::z0, |i: usize| -> Arc<dyn Fn(&Unimock) -> u32 + Send + Sync> { Arc::new(move |_| 100 + i as u32) });
+    }
+    let partial = c.partial;
+    let u = catch(move || if partial { Unimock::new_partial(dc) } else { Unimock::new(dc) }).map_err(|e| format!("HARNESS: construct {e}"))?;
+    let mut any_panic = false;
+    for k in 0..c.calls {
+        let r = catch(|| if c.unit_arg { u.zu(UnitTag) } else { u.z0() });
+        let expected: Result<u32, ()> = match first {
+            Some(i) => Ok(100 + i as u32),
+            None if c.partial => Ok(if c.unit_arg { 7778 } else { 7777 }),
+            None => Err(()),
+        };
+        match (&r, expected) {
+            (Ok(v), Ok(w)) if *v == w => {}
+            (Err(_), Err(())) => any_panic = true,
+            _ => {
+                let _ = catch(move || drop(u));
+                return Err(format!(
+                    "call #{k} of a method without sized inputs, patterns accept = {:?}: observed {r:?}, the first accepting pattern is {first:?} (expected {expected:?})",
+                    c.accepts
+                ));
+            }
+        }
+    }
+    let verdict = catch(move || drop(u));
+    // never-called rule: a mentioned method that was not matched at all fails verification
+    let matched_any = first.is_some() && c.calls > 0;
+    let should_fail = any_panic || (!c.accepts.is_empty() && !matched_any);
+    if verdict.is_err() != should_fail {
+        return Err(format!(
+            "verification after {} calls (patterns accept = {:?}, counts expected {counts:?}): {verdict:?}, expected {}",
+            c.calls,
+            c.accepts,
+            if should_fail { "a failure" } else { "silence" }
+        ));
+    }
+    Ok(CaseInfo::new(c.accepts.len() >= 2 && c.accepts.iter().any(|a| !*a))
+        .class_if(c.unit_arg, "unit-struct-argument")
+        .class_if(!c.unit_arg, "no-argument")
+        .class_if(first.map(|i| i > 0).unwrap_or(false), "a-rejecting-pattern-precedes-the-accepting-one")
+        .class_if(first.is_none(), "every-pattern-rejects"))
+}
+
+fn zero_strategy() -> impl Strategy<Value = ZeroCase> {
+    (any::<bool>(), any::<bool>(), proptest::collection::vec(proptest::bool::weighted(0.4), 1..=5), any::<bool>(), 0..=4u8)
+        .prop_map(|(partial, unit_arg, accepts, one_stub, calls)| ZeroCase { partial, unit_arg, accepts, one_stub, calls })
+}
+
+pub const RULE: &str = "scenarios = generated unordered clause lists (1-6 patterns per method, arbitrary 8-bit accept masks over args 0..8, some_call/each_call/stub forms, patterns of one method split over several clauses) x histories of up to 24 calls routed through the original or clones, strict and partial; wide-clause-lists = the same with up to 16 separate clauses over 3 methods (every mock is built from a REAL tuple of the list's arity); zero-sized-inputs = 1-5 accepting / rejecting patterns on a method without arguments or with a unit-struct argument (one stub or separate clauses), 0-4 calls, strict and partial; non-trivial = some call is accepted by >= 2 patterns of its method and an earlier call to the same method already matched; distinct = distinct scenario (hash of the whole case)";
 
 pub fn run(ctx: &Ctx) -> Verdict {
     let mut v = Verdict::new("exploration", RULE);
@@ -160,6 +272,8 @@ pub fn run(ctx: &Ctx) -> Verdict {
             i.class_if(n >= 9, "clause-tuple-arity>=9").class_if(n >= 13, "clause-tuple-arity>=13")
         })
     }));
+    #[cfg(feature = "std")]
+    v.subs.push(vcore::run_proptest(ctx, "zero-sized-inputs", ctx.tier.pick(4_000, 100_000), zero_strategy(), check_zero));
     if ctx.tier == vcore::Tier::Thorough {
         v.subs.push(super::fuzz_campaign(ctx, 1_500_000));
     }
@@ -168,6 +282,10 @@ pub fn run(ctx: &Ctx) -> Verdict {
 }
 
 pub fn replay(_sub: &str, case: Value) -> Result<(), String> {
+    if _sub == "zero-sized-inputs" {
+        let c: ZeroCase = serde_json::from_value(case).map_err(|e| format!("HARNESS: bad case: {e}"))?;
+        return check_zero(&c).map(|_| ());
+    }
     let scn: Scenario = serde_json::from_value(case).map_err(|e| format!("HARNESS: bad case: {e}"))?;
     check(&scn).map(|_| ())
 }
